@@ -484,11 +484,13 @@ def run(ctx):
         rc, out, res = ctx.go_inpkg(".", "pkg/phantoms", {"zz_verif_driver_test.go": "c14/phantoms_driver_test.go"},
                                     "^TestVerifC14Phantoms$", js, race=race, timeout=1500)
         life_st, life_rg = fut_life.result()
-    ldefs, lterms, ltcases = life.evaluate(ctx, lcases, life_st, life_rg)
+    ccases = life.gen_conc(ctx, replayed)
+    conc_st, conc_rg = life.go_run_conc(ctx, ccases, race=race)
     if res is None or len(res) != len(js):
         ctx.broken("driver", "Go driver did not produce results (rc=%s): %s" % (rc, out[-1200:]))
+        life.evaluate(ctx, lcases, life_st, life_rg)
+        life.conc_evaluate(ctx, ccases, conc_st, conc_rg, race=race)
         return
-    adefs, aterms, atcases = life.api_evaluate(ctx, acases, res[len(cases) + len(conc):])
     if race and "DATA RACE" in out:
         i = out.index("DATA RACE")
         ctx.fail("data-race", "the race detector reports a data race during concurrent selections: " + out[i:i + 900],
@@ -606,7 +608,11 @@ def run(ctx):
                        "select/lv0/err", "select/lv1/err", "select/lv2/err", "selphantom/lv-/ok", "selphantom/lv-/err",
                        "tag:leading-zero/ok", "tag:zero-weight/err", "tag:unknown-gen/err", "tag:exh/ok",
                        "exhaustive-offsets/all-hit", "conc/2", "conc/32", "hist/config-unchanged", "tag:hist-fresh/ok", "tag:multi-step/ok", "multi-list/ok"])
-    ctx.require_kinds(life.REQUIRED + life.API_REQUIRED)
+    # the lifecycle lanes (after the selector lanes, so that a broken selector is reported under its own key first)
+    ldefs, lterms, ltcases = life.evaluate(ctx, lcases, life_st, life_rg)
+    adefs, aterms, atcases = life.api_evaluate(ctx, acases, res[len(cases) + len(conc):])
+    life.conc_evaluate(ctx, ccases, conc_st, conc_rg, race=race)
+    ctx.require_kinds(life.REQUIRED + life.API_REQUIRED + life.CONC_REQUIRED)
     life.correspond(ctx, ldefs, lterms, ltcases)
     life.api_correspond(ctx, adefs, aterms, atcases)
     mm = ctx.coq_mismatches("sel", HEADER, terms, "chk", shard=max(8, (len(terms) + 15) // 16), need_vo=["C14/Run.vo"])
